@@ -5,7 +5,7 @@
 (* of transitions dropped for lack of a slot (hook H1) must equal the       *)
 (* model's.  Obs[name][year] = [filled, dropped, rows], a row being         *)
 (* <<startEpochSeconds, offsetMinutes, deltaMinutes, abbrev, year, month>>. *)
-EXTENDS BasicProc
+EXTENDS BasicProc, FiniteSets
 
 Obs == JsonDeserialize(IOEnv.BASICPROC_OBS)
 ModelRow(r) == <<r.start, r.off, r.delta, r.abbrev, r.y, r.m>>
@@ -19,5 +19,27 @@ Judge ==
         same == (o.filled = 1) = tab.filled /\ (tab.filled => (o.dropped = tab.dropped /\ orows = mrows))
     IN same \/ PrintT(ToJson([bad |-> Z.name, year |-> y, model |-> [filled |-> tab.filled, dropped |-> tab.dropped, rows |-> mrows],
                               impl |-> [filled |-> o.filled, dropped |-> o.dropped, rows |-> orows]]))
+\* ---- wall-clock resolution bound to the implementation (ZonedDateTime::forComponents on a basic zone).
+\* WallObs[name][year] = windows [w0, w1, pieces] lying in that local year; pieces <<day, sec, shift, off, err>>.
+WallObs == JsonDeserialize(IOEnv.BASICPROC_WALL)
+HasWall == Z.name \in DOMAIN WallObs /\ ToString(y) \in DOMAIN WallObs[Z.name]
+Near == (y - 2)..(y + 2)
+PieceBadB(tabOf, brk, ps, j, w1) ==
+  LET a == <<ps[j][1], ps[j][2]>>
+      b == IF j < Len(ps) THEN <<ps[j + 1][1], ps[j + 1][2]>> ELSE w1
+      pts == {a} \cup {c \in brk : Lt(a, c) /\ Lt(c, b)}
+      want == IF ps[j][5] # 0 THEN Err ELSE <<ps[j][3], ps[j][4]>>
+  IN {c \in pts : ResolveB(tabOf, c) # want}
+WallJudge ==
+  HasWall =>
+    LET W == WallObs[Z.name][ToString(y)]
+        tabOf == [yy \in Near |-> IF yy = y THEN tab ELSE Table(Z, yy)]
+        brk == BreaksB(tabOf, (y - 1)..(y + 1))
+        bad == {<<wi, j>> \in UNION {{<<wi, j>> : j \in 1..Len(W[wi].pieces)} : wi \in 1..Len(W)} :
+                  PieceBadB(tabOf, brk, W[wi].pieces, j, <<W[wi].w1[1], W[wi].w1[2]>>) # {}}
+    IN bad = {} \/ LET b == CHOOSE x \in bad : TRUE
+                       c == CHOOSE x \in PieceBadB(tabOf, brk, W[b[1]].pieces, b[2], <<W[b[1]].w1[1], W[b[1]].w1[2]>>) : TRUE
+                   IN PrintT(ToJson([wbad |-> Z.name, year |-> y, nbad |-> Cardinality(bad), at |-> c, model |-> ResolveB(tabOf, c),
+                                     impl |-> W[b[1]].pieces[b[2]]]))
 Done == y = YLast => PrintT(ToJson([zone |-> Z.name, pieces |-> pieces, judged |-> Z.name \in DOMAIN Obs]))
 =============================================================================
